@@ -82,3 +82,27 @@ Lemma transpose_tile_accesses_in_bounds W M N i ii j jj :
   0 < W -> i + W <= M -> j + W <= N -> ii < W -> jj < W ->
   (i + ii) * N + j + 0 * W + W <= M * N /\ (j + jj) * M + i + 0 * W + W <= N * M.
 Proof. intros. split; nia. Qed.
+
+(** * tmatmul micro-kernels (tmatmul.h): same access formulas; the k-range of a kernel is computed at the
+    block origin (i,j) from the extents of the whole block: rows unrollOuterloop*numSIMDRows, columns
+    numSIMDCols*W (numSIMDCols for the scalar kernel) - the [bt_R], [bt_C] of Model/TMatmul.v *)
+Lemma gen_tmkernel_accesses_eq W M K N R i j ii k n :
+  gen_tmkernel1_accesses W M K N R i j ii k n = model_kernel_accesses 1 W K N R i j ii k n /\
+  gen_tmkernel2_accesses W M K N R i j ii k n = model_kernel_accesses 2 W K N R i j ii k n /\
+  gen_tmkernel3_accesses W M K N R i j ii k n = model_kernel_accesses 3 W K N R i j ii k n /\
+  gen_tmkernel4_accesses W M K N R i j ii k n = model_kernel_accesses 4 W K N R i j ii k n /\
+  gen_tmkernel5_accesses W M K N R i j ii k n = model_kernel_accesses 5 W K N R i j ii k n /\
+  gen_tmkernel_scalar_accesses W M K N R i j ii k n = model_kernel_accesses 1 W K N R i j ii k n /\
+  gen_tmkernel_mask0_accesses W M K N R i j ii k n = model_kernel_accesses 1 W K N R i j ii k n /\
+  gen_tmkernel_mask1_accesses W M K N R i j ii k n = model_kernel_accesses 1 W K N R i j ii k n.
+Proof.
+  unfold gen_tmkernel1_accesses, gen_tmkernel2_accesses, gen_tmkernel3_accesses, gen_tmkernel4_accesses, gen_tmkernel5_accesses,
+    gen_tmkernel_scalar_accesses, gen_tmkernel_mask0_accesses, gen_tmkernel_mask1_accesses, model_kernel_accesses.
+  repeat split; acc_eq.
+Qed.
+Lemma gen_tmkernel_krange_eq W R nr nc :
+  gen_tmkernel1_krange W R nr nc = [R * nr; nc * W; R * nr; nc * W] /\ gen_tmkernel2_krange W R nr nc = [R * nr; nc * W; R * nr; nc * W] /\
+  gen_tmkernel3_krange W R nr nc = [R * nr; nc * W; R * nr; nc * W] /\ gen_tmkernel4_krange W R nr nc = [R * nr; nc * W; R * nr; nc * W] /\
+  gen_tmkernel5_krange W R nr nc = [R * nr; nc * W; R * nr; nc * W] /\ gen_tmkernel_scalar_krange W R nr nc = [R * nr; nc; R * nr; nc] /\
+  gen_tmkernel_mask0_krange W R nr nc = [R * nr; nc * W; R * nr; nc * W] /\ gen_tmkernel_mask1_krange W R nr nc = [R * nr; nc * W; R * nr; nc * W].
+Proof. repeat split; reflexivity. Qed.
